@@ -37,8 +37,7 @@ class Path:
         self.unfolded: set[str] = set()
         self.timeout = solver_timeout_ms
         self.n_checks = 0
-        self._solver = None
-        self._solver_len = 0
+        self.guards: list = []                  # while non-empty, assumed facts are weakened to guard -> fact
 
     # ---------------------------------------------------------------- facts
     def assume(self, fact) -> None:
@@ -48,6 +47,8 @@ class Path:
             return
         if z3.is_true(fact):
             return
+        if self.guards:
+            fact = z3.Implies(z3.And(*self.guards) if len(self.guards) > 1 else self.guards[0], fact)
         self.pc.append(fact)
 
     def check_sat(self, extra=None) -> str:
